@@ -213,9 +213,13 @@ class _DSFID3(ID3):
             dsd_header.offset_metdata_chunk = fileobj.tell()
             dsd_header.write()
 
+        # the ID3 chunk runs from the metadata pointer to the end of the file
+        fileobj.seek(0, 2)
+        available = fileobj.tell() - dsd_header.offset_metdata_chunk
+
         try:
             data = self._prepare_data(
-                fileobj, dsd_header.offset_metdata_chunk, self.size,
+                fileobj, dsd_header.offset_metdata_chunk, available,
                 v2_version, v23_sep, padding)
         except ID3Error as e:
             reraise(error, e, sys.exc_info()[2])
